@@ -480,7 +480,9 @@ func (x *Exec) callWith(f *frame, in ssa.Instruction, c *ssa.CallCommon, args []
 		return x.builtinCall(f, b, in, c, args)
 	}
 	if c.IsInvoke() {
+		x.curRecv = x.val(c.Value)
 		x.siteAssertions(st, in, c.Method.Name(), args)
+		x.curRecv = Val{}
 		if v, ok := x.externInvoke(f, in, c, args); ok {
 			return v
 		}
